@@ -196,11 +196,23 @@ def _(c):
         ex.n_fresh += 1
         return (sym.SOid(z3.Const("oid!%d" % ex.n_fresh, sym.OidSort)), ex.fresh_bytes("rest"))
     c.returns(mk)
-    c.loop(0, invariant=[lambda numbers, body: And_(_numbers_nonneg(numbers), Or_(llen(numbers) >= 1, blen(body) >= 1))],
-           decreases=lambda body: blen(body))
+    # ghost `_off`: offset in `string` of the part of the declared body that is not parsed yet: the sub-identifiers read so far
+    # tile string[1+lengthlength : _off] exactly, and what is left to parse is always the rest of the declared body
+    c.loop(0, invariant=[lambda numbers, body: And_(_numbers_nonneg(numbers), Or_(llen(numbers) >= 1, blen(body) >= 1)),
+                         lambda string, body, length, lengthlength, _off: And_(1 + lengthlength <= _off, _off <= 1 + lengthlength + length,
+                                                                                1 + lengthlength + length <= blen(string),
+                                                                                beq(body, slc(string, _off, 1 + lengthlength + length)))],
+           decreases=lambda body: blen(body),
+           ghost={"_off": (lambda lengthlength: 1 + lengthlength, lambda _off, ll: _off + ll)})
     c.ensures(lambda string, result: And_(eq(at(string, 0), 0x06), blen(string) - blen(result[1]) >= 3,
                                           beq(slc(string, blen(string) - blen(result[1]), blen(string)), result[1])), "rest-is-what-follows-a-nonempty-0x06-TLV")
     c.ensures(lambda result: _oid_arcs_ok(result), "arcs-in-X.690-ranges")
+
+    def framed(string, result, _locals):
+        # exists ll: the consumed prefix is exactly the canonical TLV 06 || enc_len(|b|) || b of its own non-empty body b = string[1+ll : C]
+        ll, C = _locals["lengthlength"], blen(string) - blen(result[1])
+        return And_(C - 1 - ll >= 1, ll >= 1, beq(slc(string, 0, C), S.tlv(0x06, slc(string, 1 + ll, C))))
+    c.ensures_witnessed(framed, "consumed-prefix-is-a-canonical-0x06-TLV-with-nonempty-body")
     c.assumed_ensures = [lambda string, result: beq(string, cat(SBytes(sym.ENCOID(result[0].t)), result[1]))]
 
 
